@@ -36,6 +36,10 @@ pub enum Case {
     },
     Threads { hs: Vec<History>, threads: u32, seed: u64 },
     Cli(mon::c20::CliCase),
+    FuzzInput {
+        #[serde(with = "crate::util::hexbytes")]
+        data: Vec<u8>,
+    },
 }
 
 impl Case {
@@ -50,6 +54,7 @@ impl Case {
             Case::Adts { protection_absent, delta, lo, hi, mix } => format!("ADTS frame lengths [{}..{}) protection_absent={} alternating={} buffer=len{:+}", lo, hi, protection_absent, mix, delta),
             Case::Threads { hs, threads, seed } => format!("{} histories on {} threads (schedule seed {})", hs.len(), threads, seed),
             Case::Cli(c) => c.brief(),
+            Case::FuzzInput { data } => format!("fuzz input {}", crate::util::hex_short(data)),
         }
     }
     pub fn hash(&self) -> u64 {
